@@ -8,17 +8,44 @@ verus! {
 pub mod io {
     use vstd::prelude::*;
     pub struct Error { pub code: Option<i32> }
+    impl core::fmt::Debug for Error { #[verifier::external_body] fn fmt(&self, f: &mut core::fmt::Formatter<'_>) -> core::fmt::Result { unimplemented!() } }
     pub type Result<T> = core::result::Result<T, Error>;
 }
 pub struct File { pub obj: Ghost<int> }
 pub struct OsString { pub b: Vec<u8> }
 pub struct OsStr { pub b: Vec<u8> }
 impl OsStr { pub fn to_owned(&self) -> (r: OsString) ensures r.b@ == self.b@ { OsString { b: self.b.clone() } } }
+impl Clone for OsString { fn clone(&self) -> (r: OsString) ensures r.b@ == self.b@ { OsString { b: self.b.clone() } } }
+// `impl AsRef<OsStr>` arguments: a local trait of the same name shadows the prelude's; what matters about an argument is its bytes
+pub trait AsRef<T: ?Sized> {
+    spec fn bytes(&self) -> Seq<u8>;
+    fn as_ref(&self) -> (r: &OsStr) ensures r.b@ == self.bytes();
+}
+impl AsRef<OsStr> for OsString {
+    open spec fn bytes(&self) -> Seq<u8> { self.b@ }
+    #[verifier::external_body] fn as_ref(&self) -> (r: &OsStr) { unimplemented!() }
+}
+impl AsRef<OsStr> for OsStr {
+    open spec fn bytes(&self) -> Seq<u8> { self.b@ }
+    fn as_ref(&self) -> (r: &OsStr) { self }
+}
+pub uninterp spec fn str_bytes(s: &str) -> Seq<u8>;     // the UTF-8 bytes of a string slice
+impl AsRef<OsStr> for &str {
+    open spec fn bytes(&self) -> Seq<u8> { str_bytes(*self) }
+    #[verifier::external_body] fn as_ref(&self) -> (r: &OsStr) { unimplemented!() }
+}
+// the parent's environment when it is first needed (std::env::vars_os); assumed not to change concurrently
+pub uninterp spec fn parent_env() -> Seq<(OsString, OsString)>;
 
 //@source src/os_common.rs
 //@enum ExitStatus derive=Clone,Copy
 
 pub uninterp spec fn peer(obj: int) -> int;     // the other end of a pipe
+pub uninterp spec fn dup_of(a: int, b: int) -> bool;   // a is a duplicate (File::try_clone, dup) of the open file b
+impl File {
+    #[verifier::external_body]
+    pub fn try_clone(&self) -> (r: io::Result<File>) ensures r is Ok ==> dup_of(r->Ok_0.obj@, self.obj@) { unimplemented!() }
+}
 
 // what a started process was given for one of its standard streams
 pub enum Given {
